@@ -506,7 +506,8 @@ package core
 //@ func (*JApiCore).BuildResourceMethodsPathVariables
 //@   tag C13
 //@   insertonly [C13] allProjectProperties
-//@   unclaimed kind!=insert-only only the insert-only discipline of the table is claimed here; the loops over the raw Path declarations and the schema maps are not under a functional contract
+//@   deletesites [C13] pp 1
+//@   unclaimed kind!=insert-only&delete-sites only the insert-only discipline of the table and the single place where a declared property is taken off the list of unmatched ones are claimed here; the loops over the raw Path declarations and the schema maps are not under a functional contract
 
 // ---------------------------------------------------------------- Path bodies given by reference (C01, C13)
 // following a type reference never leaves the walk on a schema without JSight content (a regex or any user type): F23
@@ -535,3 +536,9 @@ package core
 //@   loop 1 invariant 0 - 1 <= rangeindex && rangeindex <= rangelen - 1 && rangelen == len(d.Parent.Children) && d.Parent != nil && core.catalog.Tags.mx == 0
 //@   loop 1 invariant forall j :: 0 <= j && j <= rangeindex ==> d.Parent.Children[j] != d && d.Parent.Children[j].type_ != 29
 //@   loop 1 decreases rangelen - rangeindex
+
+// a refusal by the request setters (second Request, second Body, missing Request) always comes back as an error
+//@ func (core.JApiCore).addRequest
+//@   tag C11
+//@   ensures [C11] setterErrors != old(setterErrors) ==> ret != nil
+//@   unclaimed kind!=ensures only the propagation of setter refusals is claimed here; schema compilation and the directive's coordinates are not under contract
